@@ -490,3 +490,71 @@ contract(
          'and everything reachable from it is unchanged (frame); whether the pair of types is in the '
          'registry of supported casts only decides about a warning',
 )
+
+
+# --- pickle state: Buildable.__getstate__ / __setstate__ (C07) ------------------------------------------
+_INTERNALS = ('__fn_or_cls__', '__arguments__', '__argument_history__', '__argument_tags__',
+              '__signature_info__')
+
+
+def _gs_post(c):
+  h0, h = c.old, c.heap
+  s = ref(c['self'])
+  r = ref(c.result)
+  k = z3.Const('gs_k', Val)
+  names = [strlit(f) for f in _INTERNALS]
+  return z3.And(
+      is_VRef(c.result), r >= h0.alloc, cls_is(h.cls(r), 'dict'),
+      FA([k], h.has(r, k) == z3.Or(*[k == n_ for n_ in names]), patterns=[h.has(r, k)]),
+      *[h.dget(r, strlit(f)) == h0.fld(s, f) for f in _INTERNALS if f != '__signature_info__'],
+      h.dget(r, strlit('__signature_info__')) == VNone)
+
+
+contract(
+    'config.Buildable.__getstate__', F, 'Buildable.__getstate__',
+    requires=lambda c: z3.And(isref(c.old, c['self'], 'Buildable'), ref(c['self']) < c.old.alloc),
+    ensures=_gs_post, props=('C07',),
+    note='the pickled state is a fresh dict holding the callable, the argument dict, the history and '
+         'the tag dict of the Buildable *as they are* (the very objects; pickle copies them) and None '
+         'for the signature info; the Buildable itself is not modified (frame)',
+)
+
+
+def _ss_req(c):
+  h = c.old
+  st = c['state']
+  k = z3.Const('ss_k', Val)
+  names = [strlit(f) for f in _INTERNALS]
+  return z3.And(isref(h, c['self'], 'Buildable'), ref(c['self']) < h.alloc,
+                isref(h, st, 'dict'), z3.Not(cls_in(h.cls(ref(st)), 'defaultdict')),
+                z3.Not(cls_in(h.cls(ref(st)), 'History')), ref(st) < h.alloc,
+                FA([k], z3.Implies(h.has(ref(st), k), z3.Or(*[k == n_ for n_ in names])),
+                   patterns=[h.has(ref(st), k)]),
+                *[h.has(ref(st), n_) for n_ in names],
+                # what __getstate__ produces: the signature info was replaced by None
+                h.dget(ref(st), strlit('__signature_info__')) == VNone)
+
+
+def _ss_post(c):
+  h0, h = c.old, c.heap
+  s = ref(c['self'])
+  st = ref(c['state'])
+  fn = h0.dget(st, strlit('__fn_or_cls__'))
+  si = h.fld(s, '__signature_info__')
+  return z3.And(
+      *[h.fld(s, f) == h0.dget(st, strlit(f)) for f in _INTERNALS if f != '__signature_info__'],
+      is_VRef(si), ref(si) >= h0.alloc, SigInfoInv(h, si), sig_of(h, ref(si)) == sig_of_fn(fn))
+
+
+contract(
+    'config.Buildable.__setstate__', F, 'Buildable.__setstate__',
+    requires=_ss_req, ensures=_ss_post, may_raise=('ValueError', 'TypeError'),
+    mod=lambda c: [ref(c['self'])],
+    writes=('__fn_or_cls__', '__arguments__', '__signature_info__', '__argument_tags__',
+            '__argument_history__', 'signature', 'has_var_keyword', '_var_positional_start'),
+    result='none',
+    props=('C07',),
+    note='unpickling: the object gets exactly the callable, argument dict, history and tag dict of '
+         'the state, and a fresh SignatureInfo re-derived from the callable (get_signature); nothing '
+         'else changes',
+)
